@@ -6,7 +6,7 @@ static m_queue_t *g_evq;
 #include "cb.contracts.h"
 #include "ps.contracts.h"
 
-#define H_INPUTS(X) V_MOD_INPUTS(X) X(uint64_t, evq_len)
+#define H_INPUTS(X) V_MOD_INPUTS(X) X(uint64_t, evq_len) X(uint8_t, has_topic) X(uint8_t, has_key) X(uint8_t, alloc_fails) X(uint8_t, pipe_full) X(uint8_t, autofree) X(uint64_t, pipe_len)
 V_DEFINE_INPUTS(H_INPUTS)
 #include "vbuild.h"
 
@@ -21,5 +21,27 @@ void h_call_pubsub_cb(void) {
     V_COVER("cb-become", vin_evq_len > 0 && vin_recvs_len > 0 && g.evt_cb_which == 1);
     V_COVER("cb-empty", vin_evq_len == 0);
     V_COVER("cb-zombie-after", vin_evq_len > 0 && g_mod->state == M_MOD_ZOMBIE);
+    V_CANARY();
+}
+
+void h_tell_if(void) {
+    build();
+    V_ASSUME(vin_pipe_len < ((uint64_t)1 << 60));
+    static ps_priv_t callers_msg;          /* lives on the sender's stack in the real code: NOT a reference-counted block */
+    static m_mod_t sender; static ev_src_t sub; static int payload;
+    g_msg = &callers_msg;
+    g_msg->msg.system = false; g_msg->msg.sender = &sender; g_msg->msg.topic = vin_has_topic ? "t" : NULL; g_msg->msg.data = &payload;
+    g_msg->flags = vin_autofree ? M_PS_AUTOFREE : 0; g_msg->sub = NULL;
+    g_alloc_fails = vin_alloc_fails & 1; g_pipe_full = vin_pipe_full & 1; g.pipe_len = vin_pipe_len;
+    g_mod->pubsub_fd[0] = 7; g_mod->pubsub_fd[1] = 8;
+    int r = tell_if(g_msg, vin_has_key ? (const char *)&sub : NULL, g_mod);
+    if (g.memnew_calls == 1 && !g_alloc_fails) {
+        ps_priv_t *copy = g.memnew_ret;
+        V_CHECK("C02.copy-carries-sender-topic-payload-flags", copy->msg.sender == &sender && copy->msg.topic == g_msg->msg.topic && copy->msg.data == (void *)&payload
+                                                                && copy->flags == g_msg->flags && copy->msg.system == false);
+        V_CHECK("C02.copy-records-the-matched-subscription", copy->sub == (vin_has_topic ? &sub : NULL));
+    }
+    V_COVER("tell-direct-running", !vin_has_topic && r == 0 && g.pipe_len == vin_pipe_len + 1); V_COVER("tell-publish-matched", vin_has_topic && vin_has_key && g.write_calls == 1);
+    V_COVER("tell-publish-unmatched", vin_has_topic && !vin_has_key); V_COVER("tell-pipe-full", g.unref_calls == 1); V_COVER("tell-not-eligible-state", vin_state == M_MOD_IDLE);
     V_CANARY();
 }
